@@ -22,6 +22,7 @@ def claim(pid, category, text, note, technique, design_ref):
 
 
 FORMULA_NOTE = ('Evaluators are resolved as the API\'s virtual call resolves them (vtable slot of the base declaration). '
+                'The long double instantiation of the same evaluators is additionally checked for type purity (no double-precision intermediate or double-rounded constant; perturbation model of narrowing as in C09). '
                 'An obligation the solver does not decide within the budget is printed UNDECIDED (never counted as held); before that its replay is run at concrete '
                 'admissible points found by sampling under the obligation\'s path conditions, and a mismatch of the real library there is reported as a violation. '
                 'Real-arithmetic model of floating point (exact +,-,*,/ and exact libm; rounding/overflow/libm accuracy outside the claim); '
@@ -68,7 +69,7 @@ claim('C06', 'other',
 claim('C08', 'other',
       'sod_1d: (a) rtbis with func UNINTERPRETED, unrolled 3 (5 thorough) bisection steps and case-split on every sign: at every return the result is the lower end of a bracket [r, r+dx] with func(r) <= 0 <= func(r+dx) and |dx| < xacc or |func(mid)| < thresh; '
       '(b) with p_m a symbol: func == (shock-side - rarefaction-side velocity)/c_r, Rankine-Hugoniot mass and momentum jumps, every evaluator path returns the value of the wave region its conditions select with front speeds -c_l, -v_t, v_m, v_s, fronts ordered, density/velocity continuous across the fan (Gamma = 7/5; 5 rational values thorough). '
-      'cp_normal: prior/posterior == normalised normal densities with the conjugate mean/variance for data vectors of length 1..3 (6) with symbolic contents, posterior ~ likelihood*prior (exponent derivatives), loglikelihood == exponent of the likelihood, mean/variance evaluators, central moments k=0..20.',
+      'Replay for Sod: both evaluators on an x/t grid over every wave region against the exact Riemann solution. cp_normal: prior/posterior == normalised normal densities with the conjugate mean/variance for data vectors of length 1..3 (6) with symbolic contents, posterior ~ likelihood*prior (exponent derivatives), loglikelihood == exponent of the likelihood, mean/variance evaluators, central moments k=0..20.',
       FORMULA_NOTE + ' Sod states are the library\'s hard-coded (1,1) / (1/8,1/8); fractional powers are opaque atoms with v^q = base^p axioms, so the relation list is claimed for the listed rational Gamma values; bisection is bounded by the stated unrolling.',
       'symbolic execution of LLVM IR with uninterpreted func / summarised rtbis + SMT (z3 nlsat) identities and inequalities', 'DESIGN.md §4 C08')
 
@@ -81,7 +82,7 @@ claim('C09', 'other',
       'NOT decided and outside the claim: the quantitative bound (small multiple of unit roundoff) for the compiled arithmetic and glibc libm -- no solver here has a theory of binary floating point with sin/cos/pow/exp; overflow; effects of fast-math style compiler flags (the encoding uses -ffp-contract=off, no fast-math, like the -O0 baseline).',
       'symbolic execution of LLVM IR with a perturbation model of narrowing + type-relative constant analysis + SMT definedness queries', 'DESIGN.md §4 C09')
 
-STRUCT_NOTE = ('Contract models of std::string/map/vector/ostream (libstdc++ internals not analysed); allocation succeeds; masa_map summarised by its C13 contract inside masa_init; '
+STRUCT_NOTE = ('Contract models of std::string/map/vector/ostream (libstdc++ internals not analysed; vector iterators are pointers, <algorithm>/<numeric>/<functional> are defined stub templates executed from the IR; a std facility without a model ends the check with INFRASTRUCTURE, exit 2, never with a verdict); allocation succeeds; masa_map summarised by its C13 contract inside masa_init; '
                'trusted: clang-14 lowering, irdump+Engine A, z3 for path-condition feasibility; every reported counterexample is replayed on a g++ -O0 build through the public API.')
 claim('C07', 'other',
       'MASA::masa_eval_grad_*<Scalar> executed symbolically from the IR after masa_init (registry + virtual dispatch included) with the direction index a symbolic integer: '
@@ -90,14 +91,14 @@ claim('C07', 'other',
       FORMULA_NOTE + ' Power-law gradients: see evidence (family powerlaw) or stated as not covered.', 'symbolic execution of LLVM IR with symbolic integer index + SMT identity checking', 'DESIGN.md §4 C07')
 claim('C11', 'other',
       'One-step inductive checking of the parameter store from the post-masa_init state with ALL registered parameters symbolic: masa_set_param/get_param with a SYMBOLIC name string (covers every registered name and every unknown name), '
-      'masa_init_param (scalar defaults AND vector parameters restored to their registered defaults), masa_purge_default_param, masa_sanity_check (one parameter symbolic at a time, z3 decides marker => nonzero and far-from-marker => 0), set_vec/get_vec for every length 0..4 (8 thorough) with symbolic contents and a length change; every catalogue class except the two fixtures, both scalar types.',
+      'masa_init_param (scalar defaults AND vector parameters restored to their registered defaults), masa_purge_default_param, masa_sanity_check (one parameter symbolic at a time, z3 decides marker => nonzero and far-from-marker => 0; each vector parameter emptied in turn => reported), set_vec/get_vec for every length 0..4 (8 thorough) with symbolic contents and a length change; every catalogue class except the two fixtures, both scalar types.',
       STRUCT_NOTE, 'symbolic execution of LLVM IR over container contract models; path-condition feasibility by z3', 'DESIGN.md §4 C11')
 claim('C14', 'other',
       'Finite catalogue enumerated exhaustively by executing get_list_mms/masa_init/masa_printid/masa_get_name/masa_get_dimension/masa_init_param/masa_sanity_check on the IR for every entry and both scalar types; '
-      'documented evaluators (spec/capabilities.json): vtable slot overridden + no path through the API reaches a stub for symbolic arguments; interior-point finiteness with defaults is run on the real library (finite statement; a crash of that run is a violation).',
+      'documented evaluators (spec/capabilities.json): vtable slot overridden + no path through the API reaches a stub for symbolic arguments; interior-point finiteness with defaults is run on the real library for every documented evaluator and every valid direction index (finite statement; a crash of that run is a violation).',
       STRUCT_NOTE + ' Capability and dimension tables are frozen specifications in /verif/spec.', 'symbolic execution of LLVM IR (finite exhaustive catalogue) + concrete run of the real library for the interior-point clause', 'DESIGN.md §4 C14')
 claim('C15', 'other',
-      'Every (catalogue solution, masa_eval_* API template) pair outside the capability table (about 8400 pairs, both scalar types) executed with symbolic arguments: all paths return the constant -1.33, print one MASA ERROR line, store nothing, do not terminate. '
+      'Every (catalogue solution, masa_eval_* API template) pair outside the capability table (about 8400 pairs, both scalar types) executed with symbolic arguments: all paths (direction index symbolic) return the constant -1.33, print one MASA ERROR line, store nothing, do not terminate. '
       'Forwarding: every API template executed against a synthetic vtable of uninterpreted slots reaches the slot of the virtual prescribed by the naming rule with the arguments in order (class-independent).',
       STRUCT_NOTE, 'symbolic execution of LLVM IR, exhaustive over (class, API) pairs; uninterpreted vtable slots for forwarding', 'DESIGN.md §4 C15')
 
@@ -109,14 +110,14 @@ claim('C10', 'other',
       STRUCT_NOTE + ' Bit-for-bit reproducibility assumes every IR operation is a deterministic function of its operand bits (fixed rounding mode).', 'symbolic execution of LLVM IR from an arbitrary object state (frame + self-composition)', 'DESIGN.md §4 C10')
 claim('C12', 'other',
       'One API step from a registry state with K (2 quick, 3 thorough) entries whose handle strings are pairwise-distinct SYMBOLS mapped to live objects built by the real masa_init on the IR: '
-      'masa_select_mms(H), masa_init(H,name) (fresh default instance mapped at H and selected, nothing else written), masa_set_param (stores only inside the selected object), masa_list_mms/get_name, and independence of the double and long double registries; H symbolic covers every registered and every new handle. '
+      'masa_select_mms(H), masa_init(H,name) (fresh default instance mapped at H and selected, nothing else written), masa_set_param (stores only inside the selected object), masa_list_mms/get_name, and independence of the double and long double registries (no <Scalar> operation writes the other registry, and observers -- get_name, get_dimension, sanity_check, get_param, list_mms, an evaluator -- report the same with and without a solution selected in the other registry); H symbolic covers every registered and every new handle. '
       'Bounded API sequences (depth 4 quick, 5 thorough) of init/select/set_param/get_param over 2 handles from the empty registry are explored against a reference registry (state outside the K-entry shape, e.g. the first init).',
       STRUCT_NOTE + ' K bounds the symbolic shape only; std::map is modelled for any K.', 'symbolic execution of LLVM IR over a symbolic finite-map registry (inductive one-step)', 'DESIGN.md §4 C12')
 claim('C13', 'model_checking',
       'CBMC 6.11 (C++ front end) on the VERBATIM src/masa_map.cpp with a bounded std::string stub: for every string of length <= 6 (8 thorough) over all non-NUL byte values masa_map(s) equals the reference filter(lowercase(s), c not in {-,blank}); --unwinding-assertions; WITNESS twin must fail. '
       'Engine A: masa_init(H, NAME) with NAME symbolic resolves to the first catalogue entry equal to normalise(NAME), no match is fatal with the registry untouched (nothing registered under H), the handle key is used verbatim. '
       'masa_map.cpp is analysed by CBMC only; inside Engine A masa_map is replaced by its contract.',
-      'Bounded: strings longer than the bound are outside the claim. Trusted: CBMC C++ front end with -DSWIG, the 60-line string stub (find/replace/operator[] per the standard), C-locale tolower; Engine A contract models.', 'CBMC bounded model checking of the real translation unit + symbolic execution of masa_init', 'DESIGN.md §4 C13')
+      'Bounded: strings longer than the bound are outside the claim. Trusted: CBMC C++ front end with -DSWIG, the stub headers in /verif/cbmc/stub (bounded std::string with the common member functions, <algorithm>, <cctype> of the C locale), unnamed namespaces of the unit given names textually before CBMC reads it (lookup-preserving); Engine A contract models.', 'CBMC bounded model checking of the real translation unit + symbolic execution of masa_init', 'DESIGN.md §4 C13')
 claim('C16', 'other',
       'In the default (exit) build and in a -DMASA_EXCEPTIONS -fexceptions build of the IR: every solution-dependent API template (130 per scalar type) called with symbolic arguments before any masa_init, masa_select_mms of an unknown (symbolic) handle and masa_init of an unknown (symbolic) solution name from a K=2 symbolic registry: '
       'the only path prints MASA FATAL ERROR, then reaches exit(1) / throw of int 1, with no store into pre-existing memory and the registry snapshot unchanged; '
@@ -124,15 +125,15 @@ claim('C16', 'other',
       STRUCT_NOTE + ' Cleanup code on unwind edges is assumed not to touch the registry.', 'symbolic execution of LLVM IR in two build configurations (event-trace and store-set checking)', 'DESIGN.md §4 C16')
 claim('C17', 'other',
       'Every extern "C" definition of cmasa.cpp executed with symbolic arguments against UNINTERPRETED MASA::masa_*<double> templates: exactly one call of the template the naming rule prescribes with the arguments in order, the result (value or status) is the callee\'s, '
-      'masa_get_name leaves the callee\'s string in the caller buffer, masa_set_array/masa_get_array move length and contents for every length 0..4 (8 thorough) with the caller\'s *n on entry to masa_get_array an arbitrary (symbolic) integer; wrappers returning a constant are compared with the real template on every catalogue class.',
+      'masa_get_name leaves the callee\'s string in the caller buffer, masa_set_array/masa_get_array move length and contents for every length 0..4 (8 thorough) with the caller\'s *n on entry to masa_get_array an arbitrary (symbolic) integer; wrappers returning a constant are compared with the real template on every catalogue class. A wrapper definition that clang rejects as conflicting with its prototype in masa.h (g++ only warns) is reported as a wrapper C callers cannot reach.',
       STRUCT_NOTE, 'symbolic execution of LLVM IR with uninterpreted callees (translation-validation style term equality)', 'DESIGN.md §4 C17')
 claim('C18', 'other',
       'z3 bit-vector model of the System V AMD64 argument/result slots: for each of the 92 bind(C,name=...) interfaces of masa.f90 the caller writes its arguments per the Fortran declaration and the callee reads per the C definition (IR signature cross-checked with the source signature); unsat = every parameter observes the intended argument of the same kind and the result register class matches. '
-      'Header: every extern declaration of masa.h.in equals its definition; masa.i wraps exactly masa.h. A deliberately wrong binding is the witness.',
+      'Header: every extern declaration of masa.h.in equals its definition (a definition clang rejects as conflicting with the declaration is that mismatch); masa.i wraps exactly masa.h. A deliberately wrong binding is the witness.',
       'Fortran is parsed, not compiled (no Fortran front end in the image): an interface outside the parsed subset fails the run. A SUBROUTINE bound to an int-returning C function is accepted (status discarded, register compatible).', 'SMT (QF_BV) model of the calling convention per binding', 'DESIGN.md §4 C18')
 claim('C19', 'other',
       'Engine A memory model (undef tracking, region lifetimes, container index checks, heap ownership) over: static initialisation and all 37 constructors, masa_init from a symbolic registry (allocations balance to exactly one live instance per handle, replaced instance freed), the failing calls (unknown solution name on a new or existing handle, unknown handle: '
-      'the registry holds only live instances at the fatal error and the static destructor run by exit(1) releases each exactly once), printid/list/display, the registry destructor, '
+      'the registry holds only live instances at the fatal error and the static destructor run by exit(1) releases each exactly once), every solution-dependent API function called before any masa_init (no null or uninitialised access on the way to the fatal error), printid/list/display, the registry destructor, '
       'every documented evaluator of every class with symbolic arguments and parameters (no read of a never-written member), vector parameters of every length 0..4 and every combination of lengths 0..2 followed by every evaluator, the C array interface of length 0..4 through the real callee. Findings replay under valgrind.',
       STRUCT_NOTE + ' UB classes are those the IR shows (see evidence assumptions); libstdc++ internals and allocation failure are outside.', 'symbolic execution of LLVM IR with an explicit memory/ownership model', 'DESIGN.md §4 C19')
 
